@@ -2388,6 +2388,42 @@ def _option_tuple_distribute(fn):
     return changed
 
 
+def _split_common_components(fn):
+    """a, b = (x1, y) if c else (x2, y)   (y the same plain name / constant in both arms, not one of the targets, b not read by x1/x2/c)
+       ->  a = x1 if c else x2;  b = y"""
+    changed = False
+    for lst in list(_stmt_lists(fn)):
+        i = 0
+        while i < len(lst):
+            s = lst[i]
+            i += 1
+            if not (isinstance(s, ast.Assign) and len(s.targets) == 1 and isinstance(s.targets[0], ast.Tuple) and isinstance(s.value, ast.IfExp) and isinstance(s.value.body, ast.Tuple) and isinstance(s.value.orelse, ast.Tuple)):
+                continue
+            tg, A, B = s.targets[0].elts, s.value.body.elts, s.value.orelse.elts
+            if not (len(tg) == len(A) == len(B) >= 2 and all(isinstance(t, ast.Name) for t in tg)):
+                continue
+            tn = {t.id for t in tg}
+            same = [j for j in range(len(tg)) if isinstance(A[j], (ast.Name, ast.Constant)) and ast.dump(A[j]) == ast.dump(B[j]) and not (isinstance(A[j], ast.Name) and A[j].id in tn)]
+            if not same or len(same) == len(tg):
+                continue
+            keep = [j for j in range(len(tg)) if j not in same]
+            reads = {x.id for j in keep for e in (A[j], B[j]) for x in ast.walk(e) if isinstance(x, ast.Name)} | {x.id for x in ast.walk(s.value.test) if isinstance(x, ast.Name)}
+            if reads & tn:
+                continue
+            if len(keep) == 1:
+                j = keep[0]
+                first = ast.Assign(targets=[tg[j]], value=ast.IfExp(test=s.value.test, body=A[j], orelse=B[j]))
+            else:
+                first = ast.Assign(targets=[ast.Tuple(elts=[tg[j] for j in keep], ctx=ast.Store())],
+                                   value=ast.IfExp(test=s.value.test, body=ast.Tuple(elts=[A[j] for j in keep], ctx=ast.Load()), orelse=ast.Tuple(elts=[B[j] for j in keep], ctx=ast.Load())))
+            new = [first] + [ast.Assign(targets=[tg[j]], value=A[j]) for j in same]
+            new = [ast.fix_missing_locations(ast.copy_location(n_, s)) for n_ in new]
+            lst[i - 1:i] = new
+            i += len(new) - 1
+            changed = True
+    return changed
+
+
 def _merge_copy_tails(fn):
     """if c: A; p = v  else: B; p = v   ->   if c: A  else: B;  p = v      (the same plain copy ends both arms)"""
     changed = False
@@ -2448,6 +2484,7 @@ def explain_vars(fn):
     _reuse_dead_names(fn)
     _option_tuple_elim(fn)
     _option_tuple_distribute(fn)
+    _split_common_components(fn)
     if _merge_copy_tails(fn):
         pass
     for _ in range(3):
